@@ -17,7 +17,9 @@ import (
 	"strings"
 	"time"
 
+	"github.com/notaryproject/notation-core-go/signature"
 	"github.com/notaryproject/notation-go"
+	pf "github.com/notaryproject/notation-plugin-framework-go/plugin"
 	"github.com/notaryproject/notation-go/verifharness/lib"
 	"github.com/notaryproject/notation-go/verifier"
 	"github.com/notaryproject/notation-go/verifier/trustpolicy"
@@ -346,7 +348,17 @@ func main() {
 			panic(fmt.Sprintf("harness bug: minted subject has %d attributes, generated %d", got, want))
 		}
 		format := lib.Formats[i%2]
-		sig := lib.MustCoreSign(lib.SignSpec{Format: format, Payload: payload, Signer: leaf})
+		// a fifth of the cases name a verification plugin that owns ONLY the revocation check: native identity
+		// pinning must still be performed (it may be skipped only when a plugin owns trusted-identity verification)
+		var ext []signature.Attribute
+		var pm lib.ScriptedManager
+		revOnlyPlugin := i%5 == 4
+		if revOnlyPlugin {
+			ext = []signature.Attribute{{Key: lib.HdrPlugin, Critical: true, Value: "plug"}}
+			pm = lib.ScriptedManager{P: &lib.ScriptedPlugin{Caps: []pf.Capability{pf.CapabilityRevocationCheckVerifier, pf.CapabilitySignatureGenerator}}}
+			r.Event("cases-with-revocation-only-plugin")
+		}
+		sig := lib.MustCoreSign(lib.SignSpec{Format: format, Payload: payload, Signer: leaf, Ext: ext})
 
 		leafAttrs := flat(c.Subject)
 		wantAny := false
@@ -376,7 +388,11 @@ func main() {
 			}
 			idStrs = append(idStrs, c.Extra...)
 			doc := lib.OCIPolicy(L.SV(i), []string{"ca:x"}, idStrs)
-			v, err := verifier.NewVerifierWithOptions(ts, verifier.VerifierOptions{OCITrustPolicy: doc, RevocationCodeSigningValidator: lib.OKRev{}, RevocationTimestampingValidator: lib.OKRev{}})
+			vopts := verifier.VerifierOptions{OCITrustPolicy: doc, RevocationCodeSigningValidator: lib.OKRev{}, RevocationTimestampingValidator: lib.OKRev{}}
+			if revOnlyPlugin {
+				vopts.PluginManager = pm
+			}
+			v, err := verifier.NewVerifierWithOptions(ts, vopts)
 			wit := map[string]any{"case": c, "leaf_subject": leaf.Cert.Subject.String(), "identities": idStrs, "variant": variant}
 			if err != nil {
 				verdicts[variant] = "policy-rejected"
